@@ -106,7 +106,21 @@ impl ExecSnapshot {
         out
     }
 }
-pub fn read16(a: u64) -> [u8; 16] { let mut b = [0u8; 16]; unsafe { std::ptr::copy_nonoverlapping(a as *const u8, b.as_mut_ptr(), 16) }; b }
+/// the 16 bytes at [a]; when they run into the next page and that page is not mapped (code in the last page of its mapping), the bytes beyond
+/// the boundary read as 0xCC
+pub fn read16(a: u64) -> [u8; 16] {
+    let mut b = [0xCCu8; 16];
+    let in_page = (4096 - (a & 0xfff)).min(16) as usize;
+    let mut n = 16;
+    if in_page < 16 {
+        let next = (a & !0xfff) + 4096;
+        let mut v = [0u8; 1];
+        let mapped = unsafe { libc::mincore(next as *mut libc::c_void, 4096, v.as_mut_ptr()) } == 0;
+        if !mapped { n = in_page; }
+    }
+    unsafe { std::ptr::copy_nonoverlapping(a as *const u8, b.as_mut_ptr(), n) };
+    b
+}
 pub fn hex(b: &[u8]) -> String { b.iter().map(|x| format!("{x:02x}")).collect() }
 pub fn panic_msg(e: &Box<dyn std::any::Any + Send>) -> String {
     e.downcast_ref::<String>().cloned().or_else(|| e.downcast_ref::<&str>().map(|s| s.to_string())).unwrap_or_else(|| "<non-string panic>".into())
